@@ -553,6 +553,73 @@ theorem default_rule_without_yaml (table : List (Str × List Row)) (pfx name : S
       transcodeName [⟨"get".toList, '/' :: pfx ++ "/{name=**/operations/*}".toList, none⟩] name := by
   simp [opsGetPath, h]
 
+/-! ### Sub-packages: every package the LRO code uses is the package of the file that DECLARES the service -/
+
+theorem splitOn_ne_nil (c : Char) (s : Str) : splitOn c s ≠ [] := by
+  induction s with
+  | nil => simp [splitOn]
+  | cons x xs ih =>
+    simp only [splitOn]
+    split
+    · simp
+    · cases h : splitOn c xs with
+      | nil => exact absurd h ih
+      | cons a t => simp
+
+theorem splitOn_no_sep (c : Char) (s : Str) (h : c ∉ s) : splitOn c s = [s] := by
+  induction s with
+  | nil => simp [splitOn]
+  | cons x xs ih =>
+    have hx : x ≠ c := fun e => h (by simp [e])
+    have hxs : c ∉ xs := fun e => h (by simp [e])
+    simp [splitOn, hx, ih hxs]
+
+theorem splitOn_append_sep (c : Char) (p s : Str) : splitOn c (p ++ c :: s) = splitOn c p ++ splitOn c s := by
+  induction p with
+  | nil => simp [splitOn]
+  | cons x xs ih =>
+    by_cases hx : x = c
+    · simp [splitOn, hx, ih]
+    · simp only [List.cons_append, splitOn, hx, if_false, ih]
+      cases h : splitOn c xs with
+      | nil => exact absurd h (splitOn_ne_nil c xs)
+      | cons a t => simp
+
+/-- `client_package_version` of a service declared in package `p.s` is `s`, its LAST segment: for a sub-package service
+that is the sub-package's own name, whatever the API's version segment is -/
+theorem clientPackageVersion_last_segment (p s : Str) (hs : '.' ∉ s) : clientPackageVersion (p ++ '.' :: s) = s := by
+  simp [clientPackageVersion, splitOn_append_sep, splitOn_no_sep '.' s hs]
+
+/-- **the default poll URL follows the declaring file's package**: without a GetOperation rule in the service config the
+REST operations client of a service declared in `p.s` polls `/s/{name=**/operations/*}` -/
+theorem default_poll_url_of_declaring_package (table : List (Str × List Row)) (f : File) (p s name : Str)
+    (hf : f.package = p ++ '.' :: s) (hs : '.' ∉ s)
+    (h : table.find? (·.1 == getOperationSelector) = none) :
+    opsGetPathOf table f name =
+      transcodeName [⟨"get".toList, '/' :: s ++ "/{name=**/operations/*}".toList, none⟩] name := by
+  rw [opsGetPathOf, hf, clientPackageVersion_last_segment p s hs, default_rule_without_yaml table s name h]
+
+/-- with a GetOperation rule the declaring package plays no role -/
+theorem yaml_poll_url_package_free (table : List (Str × List Row)) (rows : List Row) (f g : File) (name : Str)
+    (h : table.find? (·.1 == getOperationSelector) = some (getOperationSelector, rows)) :
+    opsGetPathOf table f name = opsGetPathOf table g name := by
+  simp [opsGetPathOf, yaml_rule_overrides_default table rows _ name h]
+
+/-- **relative names follow the declaring file's package, not the API's**: a method of a service declared in the
+sub-package `p.sub` that names `X` gets `p.sub.X` (defined by any file of the request), also when the API package `p`
+declares a message `X` of its own -/
+theorem lro_relative_in_subpackage (api : Api) (f : File) (m : Method) (op : OpInfo) (p sub : Str)
+    (hf : f.package = p ++ '.' :: sub)
+    (hout : isOperation m.output = true) (hinfo : m.opInfo = some op)
+    (hr : op.response ≠ []) (hm : op.metadata ≠ [])
+    (hrrel : '.' ∉ op.response) (hmrel : '.' ∉ op.metadata)
+    (hrdef : ∃ g ∈ api, (p ++ '.' :: sub) ++ '.' :: op.response ∈ g.messages)
+    (hmdef : ∃ g ∈ api, (p ++ '.' :: sub) ++ '.' :: op.metadata ∈ g.messages) :
+    lroInfo api f m = .ok (some ((p ++ '.' :: sub) ++ '.' :: op.response, (p ++ '.' :: sub) ++ '.' :: op.metadata)) := by
+  have := lro_relative_in_package_partial api f m op hout hinfo hr hm hrrel hmrel (by rw [hf]; exact hrdef) (by rw [hf]; exact hmdef)
+  rw [hf] at this
+  exact this
+
 /-- the default pattern accepts exactly-shaped names `<one or more segments>/operations/<id>` -/
 theorem default_pattern_accepts (pre : List Str) (x : Str) (hpre : pre ≠ []) :
     matchSegs [.dstar, .lit "operations".toList, .star] (pre ++ ["operations".toList, x]) = true := by
@@ -735,6 +802,30 @@ example : opsGetPath (opsHttpTable [] [getRule "/v9/{name=operations/*}" [⟨"ge
 example : opsGetPath (opsHttpTable [] [getRule "/v9/{name=**}", getRule "/v7/{name=**}"]) "v2".toList "a/operations/b".toList
     = some ("get".toList, "/v7/a/operations/b".toList) := by decide
 example : opsHttpTable [] [⟨"acme.lib.v1.Library.GetOperation".toList, ⟨"get".toList, "/x/{name=**}".toList, []⟩, []⟩] = [] := by decide
+/-- sub-package layouts.  Service `Keepers` declared in `acme.zoo.v1.keepers`, messages `Result` in BOTH `acme.zoo.v1`
+(API package, another file, not imported) and `acme.zoo.v1.keepers`: the relative name denotes the sub-package's message,
+the fully-qualified one the API package's; with only the API package's `Result` the relative name is a KeyError; the
+default REST poll URL starts with `/keepers/`, with `/deeper/` for `acme.zoo.v1.sub.deeper` (hypotheses of
+`lro_relative_in_subpackage` / `default_poll_url_of_declaring_package` are met by these inputs) -/
+def zooRoot : File := ⟨"acme/zoo/v1/common.proto", "acme.zoo.v1".toList, [], ["acme.zoo.v1.Result".toList, "acme.zoo.v1.Meta".toList]⟩
+def zooSub : File := ⟨"acme/zoo/v1/keepers/keepers.proto", "acme.zoo.v1.keepers".toList, [],
+  ["acme.zoo.v1.keepers.Result".toList, "acme.zoo.v1.keepers.Meta".toList]⟩
+def zooBare : File := ⟨"acme/zoo/v1/keepers/keepers.proto", "acme.zoo.v1.keepers".toList, ["acme/zoo/v1/common.proto"], []⟩
+def zooOp (r m : String) : Method := ⟨"Feed", ".google.longrunning.Operation".toList, some ⟨r.toList, m.toList⟩⟩
+example : lroInfo [zooRoot, zooSub] zooSub (zooOp "Result" "acme.zoo.v1.Meta")
+    = .ok (some ("acme.zoo.v1.keepers.Result".toList, "acme.zoo.v1.Meta".toList)) := by decide
+example : lroInfo [zooSub, zooRoot] zooRoot (zooOp "Result" "acme.zoo.v1.keepers.Meta")
+    = .ok (some ("acme.zoo.v1.Result".toList, "acme.zoo.v1.keepers.Meta".toList)) := by decide
+example : lroInfo [zooRoot, zooBare] zooBare (zooOp "acme.zoo.v1.Result" "acme.zoo.v1.Meta")
+    = .ok (some ("acme.zoo.v1.Result".toList, "acme.zoo.v1.Meta".toList)) := by decide
+example : lroInfo [zooRoot, zooBare] zooBare (zooOp "Result" "acme.zoo.v1.Meta")
+    = .error (.keyError "acme.zoo.v1.keepers.Result".toList) := by decide
+example : clientPackageVersion "acme.zoo.v1.keepers".toList = "keepers".toList ∧ clientPackageVersion "acme.zoo.v1".toList = "v1".toList
+    ∧ clientPackageVersion "acme.zoo.v1.sub.deeper".toList = "deeper".toList ∧ clientPackageVersion [] = [] := by decide
+example : opsGetPathOf (opsHttpTable [] []) zooSub "shelves/s1/operations/op7".toList
+    = some ("get".toList, "/keepers/shelves/s1/operations/op7".toList) := by decide
+example : opsGetPathOf (opsHttpTable [] [getRule "/v1/{name=shelves/*/operations/*}"]) zooSub "shelves/s1/operations/op7".toList
+    = some ("get".toList, "/v1/shelves/s1/operations/op7".toList) := by decide
 /-- a name the default pattern does not accept: no URL (api-core raises ValueError) -/
 example : opsGetPath (opsHttpTable [] []) "v1".toList "operations/op1".toList = none := by decide
 
